@@ -138,7 +138,7 @@ def execute_scripted(subject, script, shots="subject", simcls=None, program=None
             prog = program if program is not None else spec.build_program(subject["program"], subject.get("build", "list"))
             base = simcls or spec.simulator_class(subject["sim"])
             cls = ins.instrumented_class(base, mon)
-            sim = cls(d=subject["d"], config=spec.build_config(subject.get("config", {})))
+            sim = cls(d=spec.sim_d(subject), config=spec.build_config(subject.get("config", {})))
             mon.watch(prog)
             run.program = prog
             run.result = sim.execute(prog, shots=shots)
